@@ -36,9 +36,9 @@ type c04Msg struct {
 type c04Kind struct {
 	name    string
 	mk      func() Mailbox
-	spec    string // fifo | fair | prio | stable
-	cap     int    // 0 = unbounded (effective capacity)
-	coarse  bool   // internals not instrumented (Workiva ring)
+	spec    string              // fifo | fair | prio | stable
+	cap     int                 // 0 = unbounded (effective capacity)
+	coarse  bool                // internals not instrumented (Workiva ring)
 	private func(m Mailbox) int // number of messages physically held (-1 unknown)
 }
 
